@@ -9,7 +9,9 @@ package main
 
 import (
 	"fmt"
+	"go/ast"
 	"go/token"
+	"go/types"
 	"sort"
 	"strings"
 )
@@ -789,4 +791,132 @@ func denitrBalance(p *Prog, r *Report, rule string) {
 	if nC != 1 {
 		r.Ob("counter", "-", false, fmt.Sprintf("%d bookings of the denitrification loss, expected 1", nC))
 	}
+}
+
+// ---------------------------------------------------------------- parallel arrays of the irrigation schedule move together
+
+// parallelArrays: the irrigation schedule is three parallel slices (date, amount, N concentration) addressed by one
+// cursor.  Whatever the input routine does to one of them in a block — store an element at some index, or replace the
+// whole slice (re-slice, append) — it must do to the other two in the same block with the same index or the same
+// slice bounds; otherwise event i carries the amount or the concentration of another event.
+func parallelArrays(p *Prog, r *Report, rule string) {
+	r.Rule(rule, "the parallel arrays of the irrigation schedule (date, amount, N concentration) are moved together: in every block of the input routine the three receive stores at the same indices, or whole-slice replacements with the same bounds", 1)
+	group := []string{"ZTBR", "BREG", "BRKZ"}
+	for _, key := range []string{"hermes.Input", "hermes.GlobalVarsMain.setIrrigation"} {
+		fi := p.Funcs[key]
+		if fi == nil {
+			continue
+		}
+		info := fi.Pkg.TypesInfo
+		fieldName := func(e ast.Expr) string {
+			se, ok := ast.Unparen(e).(*ast.SelectorExpr)
+			if !ok {
+				return ""
+			}
+			if sel, ok := info.Selections[se]; !ok || sel.Kind() != types.FieldVal {
+				return ""
+			}
+			for _, g := range group {
+				if se.Sel.Name == g {
+					return g
+				}
+			}
+			return ""
+		}
+		nBlocks, bad := 0, 0
+		ast.Inspect(fi.Decl.Body, func(n ast.Node) bool {
+			blk, ok := n.(*ast.BlockStmt)
+			if !ok {
+				return true
+			}
+			shapes := map[string]map[string]bool{}
+			add := func(f, s string) {
+				if shapes[f] == nil {
+					shapes[f] = map[string]bool{}
+				}
+				shapes[f][s] = true
+			}
+			for _, st := range blk.List {
+				as, ok := st.(*ast.AssignStmt)
+				if !ok {
+					continue
+				}
+				for k, l := range as.Lhs {
+					if ix, isIx := l.(*ast.IndexExpr); isIx {
+						if f := fieldName(ix.X); f != "" {
+							add(f, "["+types.ExprString(ix.Index)+"]")
+						}
+						continue
+					}
+					if f := fieldName(l); f != "" && k < len(as.Rhs) {
+						// whole-slice replacement: shape = right-hand side with the field's own name erased
+						add(f, "whole:"+strings.ReplaceAll(types.ExprString(as.Rhs[k]), f, "·"))
+					}
+				}
+			}
+			if len(shapes) == 0 {
+				return true
+			}
+			nBlocks++
+			ref := ""
+			same := len(shapes) == len(group)
+			// automatic irrigation books date and amount of today's event at the cursor and leaves the N concentration
+			// of that slot at the zero value of the fresh slice (it carries no N): element stores may omit it there,
+			// whole-slice replacements may not
+			elemExempt := key == "hermes.GlobalVarsMain.setIrrigation"
+			if elemExempt {
+				onlyElems := true
+				for _, g := range group {
+					for s := range shapes[g] {
+						if strings.HasPrefix(s, "whole:") {
+							onlyElems = false
+						}
+					}
+				}
+				if onlyElems && len(shapes["BRKZ"]) == 0 {
+					shapes["BRKZ"] = shapes["BREG"]
+					same = len(shapes) == len(group)
+				}
+			}
+			for _, g := range group {
+				var ks []string
+				for s := range shapes[g] {
+					ks = append(ks, s)
+				}
+				sort.Strings(ks)
+				sig := strings.Join(ks, " ")
+				if ref == "" {
+					ref = sig
+				} else if sig != ref {
+					same = false
+				}
+			}
+			if !same {
+				bad++
+				r.Ob("parallel:irrigation:"+short(key), p.Pos(blk.Pos()), false, fmt.Sprintf("in this block of %s the three schedule arrays are not treated alike: %v", short(key), shapeStr(shapes)))
+			}
+			return true
+		})
+		if bad == 0 {
+			r.Ob("parallel:irrigation:"+short(key), p.Pos(fi.Decl.Pos()), nBlocks > 0, fmt.Sprintf("%d block(s) of %s store into the schedule arrays; in each the date, the amount and the N concentration get the same indices / bounds", nBlocks, short(key)))
+		}
+	}
+}
+
+func shapeStr(m map[string]map[string]bool) string {
+	var fs []string
+	for f := range m {
+		fs = append(fs, f)
+	}
+	sort.Strings(fs)
+	var out []string
+	for _, f := range fs {
+		var ks []string
+		for s := range m[f] {
+			ks = append(ks, s)
+		}
+		sort.Strings(ks)
+		out = append(out, f+strings.Join(ks, ","))
+	}
+	return strings.Join(out, " | ")
 }
